@@ -253,7 +253,10 @@ def _opt_unwrap_or_else(I, a, d):
 
 @T.path("std::option::Option::unwrap_or_default", "core::option::Option::unwrap_or_default")
 def _opt_unwrap_or_default(I, a, d):
-    raise Inconclusive("Option::unwrap_or_default")
+    o = _opt(a[0])
+    if o.vname != "None":
+        return o.fields[0]
+    return _default_of(d, "Option")
 
 
 @T.path("std::option::Option::map", "core::option::Option::map")
@@ -741,7 +744,26 @@ def _res_unwrap_or_else(I, a, d):
 
 @T.path("std::result::Result::unwrap_or_default", "core::result::Result::unwrap_or_default")
 def _res_unwrap_or_default(I, a, d):
-    raise Inconclusive("Result::unwrap_or_default")
+    r = _res(a[0])
+    if r.vname != "Err":
+        return r.fields[0]
+    I.drop_value(r.fields[0])
+    return _default_of(d, "Result")
+
+
+def _default_of(d, what):
+    """Default::default() of the payload type named in the call's turbofish (as the dump prints it)."""
+    m = re.search(r"(?:Result|Option)::<\s*([^,>]+)", d.get("raw", ""))
+    ty = m.group(1).strip() if m else None
+    if ty == "&str":
+        return BytesRef(SBytes(), "str")
+    if ty in ("String", "std::string::String"):
+        return mk_string(SBytes())
+    if ty in ("usize", "u64", "u32", "u16", "u8", "u128", "i64", "i32", "isize"):
+        return 0
+    if ty == "bool":
+        return False
+    raise Inconclusive("%s::unwrap_or_default for %s" % (what, ty))
 
 
 # ---------------------------------------------------------------------------
